@@ -370,7 +370,8 @@ def where(op, condition, input, other):
         # Only a quantized input with a float alternative can be requantized with the input scale
         return qfallback(op, condition, input, other)
     float_data = op(condition, input.dequantize(), other)
-    if input.axis is None:
+    if input.axis is None and float_data.dtype == input.dtype:
+        # (an alternative of a wider float dtype promotes the result: it cannot be expressed with the input scale)
         # We requantize with the input scale
         return quantize_activation(float_data, qtype=input.qtype, scale=input._scale)
     return float_data
